@@ -21,12 +21,14 @@ Tags of the listed findings (known_findings.d/types2.json); anything else is rep
   dt-day-overflow       date-and-time: day 30 of February etc. normalised instead of refused (libyang's unit tests require it)
   dt-sort-eq            date-and-time: sort callback says equal for values the compare callback distinguishes (unit tests require it)
   dt-year-10000         date-and-time: canonical string with a 5-digit year is not accepted again
+  ip6-embedded-v4-leading-zero   ipv6 text with an embedded dotted quad octet written with a leading zero: pattern admits, inet_pton refuses
   idref-empty-prefix    identityref value :name accepted
 Retired tags (fixed in /repo, the regression cases stay in the generators and a reappearance is a violation):
   binary-pad-bits c0ee3aa (non-zero unused base64 bits: canonical string now re-encoded), str-nonchar d2cc93f
   (noncharacters refused by ly_getutf8/ly_checkutf8), yang-plane4-char f25b870, dt-str2time-overread 9ddb75e,
   json-int64-base0 5c9a53f, dt-lexical 507eb73 (date-and-time pattern checked), dt-sort-overflow 33f29b0,
-  idref-any-base f805b4f (identityref derived from all bases), dt-zone-hour 7817ee6 (offset hour below -23).
+  idref-any-base f805b4f (identityref derived from all bases), dt-zone-hour 7817ee6 (offset hour below -23), dt-zone-sign-00 b8ef36b,
+  path-canon-format 7dc3ec2 (canonical paths stored in the canonical format).
 
 Type names are those of the table TYPES in impl/t_types2.c (module types2, prefix t2)."""
 import base64
@@ -57,12 +59,14 @@ TYPES = {
     "bt": {"jrep": "str", "valid": b"a"},
     "bs": {"jrep": "str", "valid": b"x"},
     "bin": {"jrep": "str", "valid": b"YWI="},
+    "binu": {"jrep": "str", "valid": b"YWI="},
     "un": {"jrep": "union", "int": True, "valid": b"auto"},
     "un2": {"jrep": "union", "int": True, "valid": b"a"},
     "un3": {"jrep": "str", "int": True, "valid": b"1"},
     "idr": {"jrep": "str", "prefixed": True, "valid": b"types2:iab"},
     "lref": {"jrep": "num", "int": True, "valid": b"1"},
     "iid": {"jrep": "str", "prefixed": True, "valid": b"/types2:tgt"},
+    "nii": {"jrep": "str", "prefixed": True, "valid": b"/types2:tgt"},
     "em": {"jrep": "empty", "nodflt": True, "valid": b""},
     "tc": {"jrep": "num", "int": True, "valid": b"20"},
     "ip4": {"jrep": "str", "valid": b"1.2.3.4"},
@@ -247,8 +251,37 @@ def bin_values(rng, n_rand):
             i = len(e.rstrip(b"=")) - 1
             alpha = b"ABCDEFGHIJKLMNOPQRSTUVWXYZabcdefghijklmnopqrstuvwxyz0123456789+/"
             out.append(e[:i] + bytes([alpha[(alpha.index(e[i]) + 1) % 64]]) + e[i + 1:])
+    out += b64_noncanonical(rng)
     pool = [b64(bytes(rng.randrange(256) for _ in range(rng.choice([1, 2, 3, 4, 5])))) for _ in range(10)]
     return out + pool + mutated(rng, pool, n_rand, b"ABab01+/=- \n_")
+
+
+B64_ALPHA = b"ABCDEFGHIJKLMNOPQRSTUVWXYZabcdefghijklmnopqrstuvwxyz0123456789+/"
+
+
+def b64_noncanonical(rng, lens1=(1, 4, 49), lens2=(2, 5, 47)):
+    """every non-canonical spelling of the unused bits of the last character: the 15 patterns of the low four bits for a
+    text ending in == (3n+1 octets), the 3 patterns of the low two bits for a text ending in = (3n+2 octets); plus the
+    3n class (nothing unused), padding missing / in excess, white space inside"""
+    out = []
+    for ln in lens1:
+        e = b64(bytes(rng.randrange(256) for _ in range(ln)))
+        i = len(e) - 3
+        for bits in range(1, 16):
+            out.append(e[:i] + bytes([B64_ALPHA[B64_ALPHA.index(e[i]) | bits]]) + e[i + 1:])
+        out += [e, e[:-1], e[:-2], e + b"=", e[:i + 1] + b" " + e[i + 1:], e[:2] + b"\n" + e[2:]]
+    for ln in lens2:
+        e = b64(bytes(rng.randrange(256) for _ in range(ln)))
+        i = len(e) - 2
+        for bits in range(1, 4):
+            out.append(e[:i] + bytes([B64_ALPHA[B64_ALPHA.index(e[i]) | bits]]) + e[i + 1:])
+        out += [e, e[:-1], e + b"=", e[:1] + b"\t" + e[1:]]
+    for ln in (3, 6, 48):
+        e = b64(bytes(rng.randrange(256) for _ in range(ln)))
+        out += [e, e + b"=", e + b"==", e[:-1] + b"="]
+    # the octet A in all its sixteen spellings
+    out += [b"Q" + bytes([B64_ALPHA[16 + b]]) + b"==" for b in range(16)]
+    return out
 
 
 def idr_values(rng):
@@ -280,6 +313,16 @@ def iid_values(rng):
     return out
 
 
+def nii_values(rng):
+    """nacm:node-instance-identifier: (JSON spelling, XML spelling: every name prefixed)"""
+    return [(b"/", b"/"), (b"/types2:tgt", b"/t2:tgt"), (b"/types2:k_i8r", b"/t2:k_i8r"), (b"/types2:k_i8r/k", b"/t2:k_i8r/t2:k"),
+            (b"/types2:k_i8r[k='5']", b"/t2:k_i8r[t2:k='5']"), (b"/types2:k_i8r[k='+5']/k", b"/t2:k_i8r[t2:k='+5']/t2:k"),
+            (b"/types2:k_sl[k=\"a'b\"]", b"/t2:k_sl[t2:k=\"a'b\"]"), (b"/types2:ll_i8r[.='5']", b"/t2:ll_i8r[.='5']"),
+            (b"/types2:ll_i8r", b"/t2:ll_i8r"), (b"/types2:nope", b"/t2:nope"), (b"/types2:k_i8r[k='4']", b"/t2:k_i8r[t2:k='4']"),
+            (b"/types2:k_i8r/types2:k", b"/t2:k_i8r/k"), (b"types2:tgt", b"t2:tgt"), (b"", b""), (b"//", b"//"), (b"/types2:tgt/", b"/t2:tgt/"),
+            (b" /types2:tgt", b" /t2:tgt"), (b"/xx:tgt", b"/xx:tgt"), (b"/tgt", b"/tgt")]
+
+
 IP4 = [b"1.2.3.4", b"0.0.0.0", b"255.255.255.255", b"256.1.1.1", b"1.2.3", b"1.2.3.4.5", b"01.2.3.4", b"1.2.3.04", b"001.002.003.004", b" 1.2.3.4",
        b"1.2.3.4 ", b"1.2.3.4%eth0", b"1.2.3.4%", b"1.2.3.4%eth 0", b"1.2.3.4%ETH0", b"1.2.3.-4", b"1.2.3.+4", b"0x1.2.3.4", b"1..3.4", b"1.2.3.4\n",
        b"1.2.3.4%e%f", b"127.1", b"192.168.000.001", b"1.2.3.a", b"", b"::1", b"1.2.3.4/8"]
@@ -287,7 +330,7 @@ IP6 = [b"::", b"::1", b"2001:db8::1", b"2001:DB8::1", b"2001:DB8:0:0:0:0:0:1", b
        b"2001:db8::1:0:0:1", b"fe80::1%eth0", b"FE80::1%ETH0", b"fe80::1%", b"::ffff:1.2.3.4", b"::FFFF:1.2.3.4", b"::1.2.3.4", b"0:0:0:0:0:ffff:102:304",
        b"1::2::3", b"12345::", b"1:2:3:4:5:6:7:8", b"1:2:3:4:5:6:7:8:9", b"1:2:3:4:5:6:7::", b"::2:3:4:5:6:7:8", b"1:2:3:4:5:6:7", b":", b":::", b" ::1",
        b"::1 ", b"::g", b"0::0", b"0000::0000", b"::ffff:1.2.3.256", b"::1%lo%x", b"1.2.3.4", b"", b"::1/128", b"2001:db8::0:1", b"2001:db8:0::1",
-       b"A::B", b"a::b", b"::00a", b"::000a"]
+       b"A::B", b"a::b", b"::00a", b"::000a", b"::ffff:1.02.3.4", b"::1.2.3.04", b"::ffff:001.2.3.4"]
 IP4P = [b"10.0.0.0/8", b"10.1.2.3/8", b"10.0.0.0/0", b"0.0.0.0/0", b"1.2.3.4/32", b"1.2.3.4/33", b"1.2.3.4/31", b"10.0.0.0/08", b"10.0.0.0/ 8",
         b"10.0.0.0 /8", b"10.0.0.0/", b"10.0.0.0", b"/8", b"10.0.0.0/8 ", b" 10.0.0.0/8", b"10.0.0.0/+8", b"10.0.0.0/-0", b"010.0.0.0/8", b"10.0.0.0/8/8",
         b"255.255.255.255/1", b"192.168.1.255/25", b"10.0.0/8", b"::/0", b""]
@@ -351,7 +394,7 @@ def values_for(rng, T, tier, scale):
         return same(bits_values(rng, [b"a", b"b", b"cc", b"d", b"e"], k(80, 5000)))
     if T == "bs":
         return same(bits_values(rng, [b"x", b"y", b"z"], k(40, 3000)))
-    if T == "bin":
+    if T in ("bin", "binu"):
         return same(bin_values(rng, k(60, 5000)))
     if T == "un":
         pool = [b"5", b"+5", b"05", b" 5", b"5 ", b"1", b"10", b"0", b"11", b"+11", b"011", b"12", b"auto", b"Auto", b"auto ", b"ab", b"abc", b"abcd", b"a",
@@ -370,6 +413,8 @@ def values_for(rng, T, tier, scale):
         return idr_values(rng)
     if T == "iid":
         return iid_values(rng)
+    if T == "nii":
+        return nii_values(rng)
     if T == "em":
         return same([b"", b" ", b"  ", b"x", b"\n", b"null", b"[null]", b"0", b"\t"])
     if T in ("ip4", "ip4nz"):
@@ -1060,6 +1105,13 @@ def ref_derived(T, s):
         return ("%s/%d" % (_v6_fmt(a & mask), n)).encode()
     if T == "ipp":
         return ref_derived("ip4p", s) or ref_derived("ip6p", s)
+    if T in ("bin", "binu"):
+        # RFC 7950 9.8.2 / RFC 4648 section 4; libyang tolerates a line feed after every 64 characters; the canonical string
+        # is the RFC 4648 text of the octets (zero unused bits, padded, no line feeds); length counted in octets
+        d = b64_strict(s)
+        if d is None or (T == "bin" and not in_parts(LEN["bin"], len(d))):
+            return None
+        return base64.b64encode(d)
     if T in ("hx", "phys"):
         return t.lower().encode() if re.fullmatch("(%s)?" % HEXPAIRS, t) else None
     if T == "mac":
@@ -1093,17 +1145,19 @@ def ref_dt(t):
     if z == "-00:00":
         return ("%04d-%02d-%02dT%02d:%02d:%02d%s-00:00" % (y, mo, d, h, mi, sec, frac)).encode()
     off = 0 if z == "Z" else (1 if z[0] == "+" else -1) * (int(z[1:3]) * 3600 + int(z[4:6]) * 60)
-    if y < 1 or y > 9998:
-        return b"?" if off else ("%04d-%02d-%02dT%02d:%02d:%02d%s+00:00" % (y, mo, d, h, mi, sec, frac)).encode()
     import datetime
+    # the Gregorian calendar repeats every 400 years: years 0000..0400 are computed 400 years later (datetime has no year 0)
+    lift = 400 if y < 401 else 0
     try:
-        u = datetime.datetime(y, mo, d, h, mi, sec) - datetime.timedelta(seconds=off)
-    except OverflowError:
+        u = datetime.datetime(y + lift, mo, d, h, mi, sec) - datetime.timedelta(seconds=off)
+    except (OverflowError, ValueError):
         return b"?"
-    return (u.strftime("%Y-%m-%dT%H:%M:%S").rjust(19, "0") + frac + "+00:00").encode()
+    if u.year - lift < 0:
+        return b"?"
+    return ("%04d" % (u.year - lift) + u.strftime("-%m-%dT%H:%M:%S") + frac + "+00:00").encode()
 
 
-DERIVED = ["ip4", "ip4nz", "ip6", "ip6nz", "ipa", "ip4p", "ip6p", "ipp", "dt", "hx", "phys", "mac", "uu", "idr"]
+DERIVED = ["bin", "binu", "ip4", "ip4nz", "ip6", "ip6nz", "ipa", "ip4p", "ip6p", "ipp", "dt", "hx", "phys", "mac", "uu", "idr"]
 V4_PTS = [0, 1, 0x7F000001, 0x7FFFFFFF, 0x80000000, 0xC0A8FE37, 0xFFFFFFFE, 0xFFFFFFFF, 0x0A010203, 0x00FF00FF, 0x55555555, 0xAAAAAAAA]
 V6_PTS = [0, 1, 2, (1 << 128) - 1, 1 << 127, 0x20010DB8 << 96 | 1, 0xFE80 << 112 | 0x1234, 0xFFFF << 32 | 0x01020304, 0x01020304,
           0x0001000000000002 << 64 | 3, 0x20010DB800000000 << 64 | 0x0001000000000001, int("55555555" * 4, 16), int("aaaaaaaa" * 4, 16),
@@ -1153,18 +1207,22 @@ def derived_values(rng, T, tier, scale):
     if T == "dt":
         base = ["2020-01-01T00:00:00", "2020-02-29T23:59:59", "1999-12-31T23:59:59", "2038-01-19T03:14:08", "1969-12-31T23:59:59", "0001-01-01T00:00:00",
                 "9999-12-31T23:59:59", "2021-03-28T01:30:00", "2020-06-15T12:30:45", "1900-03-01T00:00:00", "2100-02-28T12:00:00", "2000-02-29T00:00:00"]
-        zones = ["Z", "+00:00", "-00:00", "+01:00", "-01:00", "+05:30", "-12:00", "+14:00", "+23:59", "-23:59", "+24:00", "+00:60", "z", "", "+0100", "+1:00"]
+        zones = ["Z", "+00:00", "-00:00", "+01:00", "-01:00", "+05:30", "-12:00", "+14:00", "+23:59", "-23:59", "-00:09", "+00:09", "-00:59", "+00:30",
+                 "+24:00", "+00:60", "z", "", "+0100", "+1:00"]
         fracs = ["", ".5", ".50", ".500", ".0", ".000", ".123456789", ".1234567890123", "."]
         for b in base:
             for z in zones:
                 out.append(b + rng.choice(fracs) + z)
             for f in fracs:
-                out.append(b + f + rng.choice(zones[:10]))
+                out.append(b + f + rng.choice(zones[:14]))
         out += ["2020-02-30T00:00:00Z", "2021-02-29T00:00:00Z", "2020-04-31T00:00:00Z", "2020-13-01T00:00:00Z", "2020-00-10T00:00:00Z", "2020-01-00T00:00:00Z",
                 "2020-01-32T00:00:00Z", "2020-01-01T24:00:00Z", "2020-01-01T23:60:00Z", "2020-01-01T23:59:60Z", "2016-12-31T23:59:60Z", "2020-01-01T23:59:61Z",
                 "1900-02-29T00:00:00Z", "2100-02-29T00:00:00Z", "2020-01-01t00:00:00Z", "2020-01-01 00:00:00Z", "2020-1-1T00:00:00Z", "20200101T000000Z",
                 "2020-01-01T00:00:00Zx", "2020-01-01T00:00:00+01:00x", " 2020-01-01T00:00:00Z", "2020-01-01T00:00:00Z ", "0000-01-01T00:00:00Z",
                 "2020-01-01T00:00:00.5.5Z", "2020-01-01T00:00:00,5Z", "+2020-01-01T00:00:00Z", "2020-01-01T00:00:00-24:00", "2020-01-01T-1:00:00Z"]
+    if T in ("bin", "binu"):
+        out2 = b64_noncanonical(rng) + ([b64(bytes(rng.randrange(256) for _ in range(rng.randrange(0, 60)))) for _ in range(k(10, 500))])
+        return [v for v in out2 + [v for v, _ in values_for(rng, T, tier, 0.3 * scale)] if b"\0" not in v]
     if T in ("hx", "phys", "mac", "uu"):
         n = {"hx": [0, 1, 2, 5], "phys": [0, 1, 6, 8], "mac": [6], "uu": [16]}[T]
         for _ in range(k(12, 400)):
@@ -1186,6 +1244,44 @@ def derived_values(rng, T, tier, scale):
     return [v for v in res if b"\0" not in v]
 
 
+# expected canonical strings of instance-identifier / node-instance-identifier values (RFC 7951 6.11: module name on the first
+# node and where the module changes; key values canonical, single quotes unless the value holds one)
+PATH_CANON = {
+    ("iid", b"/types2:tgt"): b"/types2:tgt", ("iid", b"/types2:k_i8r[k='+5']/k"): b"/types2:k_i8r[k='5']/k",
+    ("iid", b"/types2:k_i8r[k=\"5\"]"): b"/types2:k_i8r[k='5']", ("iid", b"/types2:ll_i8r[.='+5']"): b"/types2:ll_i8r[.='5']",
+    ("iid", b"/types2:k_sl[k=\"a'b\"]"): b"/types2:k_sl[k=\"a'b\"]", ("iid", b"/types2:k_d2r[k='3.50']"): b"/types2:k_d2r[k='3.5']",
+    ("nii", b"/"): b"/", ("nii", b"/types2:tgt"): b"/types2:tgt", ("nii", b"/types2:k_i8r/k"): b"/types2:k_i8r/k",
+    ("nii", b"/types2:k_i8r[k='+5']/k"): b"/types2:k_i8r[k='5']/k", ("nii", b"/types2:k_i8r"): b"/types2:k_i8r",
+    ("nii", b"/types2:ll_i8r[.='5']"): b"/types2:ll_i8r[.='5']", ("nii", b"/types2:k_sl[k=\"a'b\"]"): b"/types2:k_sl[k=\"a'b\"]",
+}
+
+
+def _pq(v):
+    """canonical quoting of a predicate value (instanceid_path2str): single quotes unless the value holds one"""
+    return ('"%s"' if "'" in v else "'%s'") % v
+
+
+def _path_quote_cases():
+    """instance-identifier / node-instance-identifier paths with two predicates (two keys, predicates on two steps, key then
+    leaf-list .=) whose values hold apostrophes and double quotes in every position combination -> {(T, input): canonical}"""
+    vals = ["x", "it's", 'say "hi"', "o'clock 'n", 'a"b"', ""]
+    out = {}
+    for T in ("iid", "nii"):
+        for a in vals:
+            for b in vals:
+                for tmpl in ("/types2:k2[a=%s][b=%s]/v", "/types2:k2[a=%s][b=%s]", "/types2:o[n=%s]/i[m=%s]/v", "/types2:o[n=%s]/i[m=%s]"):
+                    canon = tmpl % (_pq(a), _pq(b))
+                    out[(T, canon.encode())] = canon.encode()
+                    # the other quote where the value allows it: canonicalised to the single quote
+                    alt = tmpl % (('"%s"' % a) if '"' not in a else _pq(a), ('"%s"' % b) if '"' not in b else _pq(b))
+                    out[(T, alt.encode())] = canon.encode()
+            out[(T, ("/types2:ll_s[.=%s]" % _pq(a)).encode())] = ("/types2:ll_s[.=%s]" % _pq(a)).encode()
+    return out
+
+
+PATH_CANON.update(_path_quote_cases())
+
+
 class DerivedRfc:
     """oracle: ietf-inet-types / ietf-yang-types derived types (ipv4/ipv6 address with and without zone, ip-address,
     ipv4/ipv6/ip-prefix for every prefix length, date-and-time, hex-string, phys-address, mac-address, uuid) and
@@ -1203,7 +1299,9 @@ class DerivedRfc:
             vals = derived_values(rng, T, tier, scale)
             for v in vals:
                 L.append("ci\t%s\t%s" % (T, hexs(v)))
-            good = [v for v in vals if ref_derived(T, v) not in (None, b"?")]
+            # (values the implementation is known to refuse - ip6-embedded-v4-leading-zero - are judged by ci only)
+            good = [v for v in vals if ref_derived(T, v) not in (None, b"?") and
+                    not (b":" in v and b"." in v and re.search(rb":(\d+\.)*0\d+(\.\d+)*(%|/|$)", v))]
             if not good:
                 continue
             bycanon = {}
@@ -1224,6 +1322,15 @@ class DerivedRfc:
         for trio in ((b"2100-02-28T12:00:00.0-00:00", b"2100-02-28T12:00:00.000+00:00", b"2100-02-28T12:00:00Z"),
                      (b"1969-12-31T23:59:59Z", b"1900-03-01T00:00:00+01:00", b"2038-01-19T03:14:08.000+23:59")):
             L.append("perm\tdt\t" + "\t".join(hexs(x) for x in trio))
+        # what becomes of the canonical string: stored again, lyd_change_term_canon, dup, dup into another context - every type
+        for T in TYPES:
+            vals = [vj for vj, _ in values_for(rng, T, tier, 0.25 * scale) if b"\0" not in vj]
+            if len(vals) > 40 and tier != "thorough":
+                vals = vals[:15] + rng.sample(vals[15:], 25)
+            for v in vals:
+                L.append("cx\t%s\t%s" % (T, hexs(v)))
+        for T, v in PATH_CANON:
+            L.append("cx\t%s\t%s" % (T, hexs(v)))
         # prefix length 0 and full length with host bits, in every form (regression of a seeded change)
         for T, a, b in (("ip4p", b"192.168.254.55/0", b"0.0.0.0/0"), ("ipp", b"1.2.3.4/0", b"0.0.0.0/0"), ("ip6p", b"2001:db8::1/0", b"::/0"),
                         ("ipp", b"ffff::1/0", b"::/0"), ("ip4p", b"1.2.3.4/32", b"1.2.3.4/32"), ("ip6p", b"::1/128", b"0:0::1/128")):
@@ -1236,6 +1343,25 @@ class DerivedRfc:
         if out.startswith("CRASH") or out == "TIMEOUT" or out in ("?", "NUL"):
             return None, "%s: %s %s" % (line[:200], out, getattr(self, "last_err", "")[-1200:])
         vals = [unhex(x) for x in f[2:]]
+        if f[0] == "cx":
+            tok = out.split(" ")
+            if tok[0] == "E":
+                if (T, vals[0]) in PATH_CANON:
+                    return None, "value %r of %s: rejected, expected canonical %r" % (vals[0], T, PATH_CANON[(T, vals[0])])
+                return None
+            c1 = tok[0]
+            bad = []
+            if (T, vals[0]) in PATH_CANON and unhex(c1) != PATH_CANON[(T, vals[0])]:
+                bad.append("canonical %r, expected %r" % (unhex(c1), PATH_CANON[(T, vals[0])]))
+            kv = dict(t.split("=", 1) for t in tok[1:])
+            for key, what in (("rs", "stored again"), ("dp", "lyd_dup_single"), ("dx", "lyd_dup_single_to_ctx (second context)")):
+                if kv.get(key) != c1:
+                    bad.append("%s: %s" % (what, show(kv.get(key))))
+            if kv.get("cc") != "OK":
+                bad.append("lyd_change_term_canon(own canonical value): %s" % show(kv.get("cc", "?").replace("OK:", "")))
+            if bad:
+                return None, "value %r of %s, canonical %r: %s" % (vals[0], T, unhex(c1), "; ".join(bad))
+            return None
         refs = [ref_derived(T, v) for v in vals]
         if f[0] == "ci":
             want = refs[0]
@@ -1276,6 +1402,9 @@ class DerivedRfc:
 
     def tag(self, T, vals, want, f0="ci", out=""):
         """narrow tags of the listed findings (known_findings.d/types2.json)"""
+        if T in ("ip6", "ip6nz", "ipa", "ip6p", "ipp") and f0 == "ci" and want is not None and out == "E" and \
+                re.search(rb":(\d+\.)*0\d+(\.\d+)*(%|/|$)", vals[0]) and b"." in vals[0]:
+            return "ip6-embedded-v4-leading-zero"       # inet_pton() refuses what the RFC 6991 pattern admits
         if T == "dt" and f0 == "ci":
             tok = out.split(" ")
             if want is None and tok[0] != "E":
